@@ -4,6 +4,8 @@ CONSTANTS
   Redispatch = TRUE
   StartStates = {"VIRGIN", "QUEUED", "INITIALIZING", "INCOMPLETE", "DOWNLOADING", "UPLOADING", "COMPLETE", "FAILED", "ABORTED", "PAUSED"}
   Dirs = {"up", "down"}
+  Lst2Kinds = {"none"}
+  WithLoad = FALSE
 INVARIANT Mutex
 INVARIANT HolderInBody
 PROPERTY LegalEdges
